@@ -289,7 +289,9 @@ def shard_dispatch(sh, part):
         b = nprng.integers(0, rng.choice([2, 3, 7]), n).astype(dtype)
         if rng.random() < 0.3:
             a = ((a.astype(np.int64) + b) % 5).astype(dtype)
-        args = types.SimpleNamespace(heuristic=heuristic, mi_stratified_sampling_ratio=r)
+        # the ratio in the forms callers use: Python float (CLI), numpy scalars (tests, docs), decimal text
+        r_form = rng.choice([r, r, np.float32(r), np.float64(r), repr(r)])
+        args = types.SimpleNamespace(heuristic=heuristic, mi_stratified_sampling_ratio=r_form)
         ok, got = sh.call('ratio-forwarded', 'conduct_feature_ranking', ie.conduct_feature_ranking, a, b, args)
         if not ok:
             continue
@@ -304,6 +306,36 @@ def shard_dispatch(sh, part):
                 sh.check('ratio-forwarded', _bits(got) == _bits(exp), 'dispatched-score!=estimator(these vectors, this ratio)', lambda: {'round': t, 'after_in_place_edit': True, 'got': float(got), 'direct': float(exp)})
         del a, b
     sh.case(('dispatch-history', part), True, 'dispatch-history', sample={'rounds': reps})
+    # the batch stage with a ratio < 1: the label is the conditioning side for every heuristic and every column name
+    import pandas as pd
+    from vf import pipe
+    cr = pipe.fresh_core_ranking()
+    for t in range(6 if sh.tier == 'quick' else 30):
+        n = rng.choice([600, 3000])
+        lab = nprng.integers(0, 3, n)
+        names = rng.sample(['zone', 'campaign', 'a_first', 'zz_last', 'm', 'label2'], 3)
+        cols = {}
+        for j, nm in enumerate(names):
+            v = nprng.integers(0, rng.choice([4, 9, 60]), n)
+            cols[nm] = np.where(nprng.random(n) < 0.4, lab + 1, v)
+        cols['label'] = lab
+        order = list(cols)
+        rng.shuffle(order)
+        df = pd.DataFrame({c: ['v%d' % x for x in cols[c]] for c in order})
+        codes = {c: np.array(pipe.codes_sorted(df[c].tolist()), dtype=np.int32) for c in order}
+        for heuristic in ('MI-numba-3mr', 'MI-numba-randomized'):
+            r = float(np.float32(rng.choice([0.3, 0.5, 0.8])))
+            a_ = pipe.make_args(heuristic=heuristic, target_ranking_only='True', mi_stratified_sampling_ratio=r, combination_number_upper_bound=10 ** 6)
+            ok, out = sh.call('ratio-forwarded', 'mixed_rank_graph', cr.mixed_rank_graph, df, a_, pipe.SyncPool(), pipe.NullPbar())
+            if not ok:
+                continue
+            got = {(x, y): float(s_) for x, y, s_ in out.triplet_scores}
+            for c in names:
+                exp = float(est(codes[c], codes['label'], r, heuristic == 'MI-numba-randomized'))
+                g = got.get((c, 'label'), got.get(('label', c)))
+                sh.check('ratio-forwarded', g is not None and _bits(g) == _bits(exp), 'batch-score!=estimator(feature | label, ratio)',
+                         lambda: {'heuristic': heuristic, 'ratio': r, 'feature': c, 'columns': order, 'got': g, 'expected': exp, 'with_sides_swapped': float(est(codes['label'], codes[c], r, heuristic == 'MI-numba-randomized'))})
+        sh.case(('batch-ratio', part, t), True, 'batch-stage-with-ratio<1')
 
 
 def shard_cli(sh):
